@@ -21,7 +21,7 @@ var (
 	vRatHalf = big.NewRat(1, 2)
 )
 
-func vRatAbs(r *big.Rat) *big.Rat { return new(big.Rat).Abs(r) }
+func vRatAbs(r *big.Rat) *big.Rat    { return new(big.Rat).Abs(r) }
 func vRatAdd(a, b *big.Rat) *big.Rat { return new(big.Rat).Add(a, b) }
 func vRatMul(a, b *big.Rat) *big.Rat { return new(big.Rat).Mul(a, b) }
 func vRatSub(a, b *big.Rat) *big.Rat { return new(big.Rat).Sub(a, b) }
@@ -45,8 +45,8 @@ type vVal struct {
 	Mag *big.Rat
 }
 
-func vValOf(r *big.Rat) vVal  { return vVal{new(big.Rat).Set(r), vRatAbs(r)} }
-func vValZero() vVal          { return vVal{new(big.Rat), new(big.Rat)} }
+func vValOf(r *big.Rat) vVal   { return vVal{new(big.Rat).Set(r), vRatAbs(r)} }
+func vValZero() vVal           { return vVal{new(big.Rat), new(big.Rat)} }
 func (a vVal) Add(b vVal) vVal { return vVal{vRatAdd(a.V, b.V), vRatAdd(a.Mag, b.Mag)} }
 func (a vVal) Scale(k *big.Rat) vVal {
 	return vVal{vRatMul(a.V, k), vRatMul(a.Mag, vRatAbs(k))}
